@@ -90,6 +90,64 @@ def observe(rec, names):
     return {"k": "ok", "img": img, "syms": syms, "low": rec["low"] if rec["low"] < (1 << 31) else -1, "high": rec["high"]}
 
 
+def charsource_part(chk, vdir, tier, seed, rnd):
+    """the character source under macro expansion: CharSource.tla model-checked, then operation scripts on the real
+    tokens_get_char / tokens_unget_char / macros_push_define"""
+    rd = chk.rundir
+    cfg = C.tlc_cfg_with("mc_CharSource.cfg", rd, {"MaxOps": 7 if tier == "quick" else 9})
+    r = C.tlc("MCCharSource", cfg, os.path.join(rd, "mccs"), workers=8, heap="6g", timeout=2400)
+    chk.add_tlc(r)
+    if not r.ok:
+        chk.report("model:CharSource:%s" % r.violated, "the character source machine does not refine the reference stream", dict(out=r.out[-2000:]))
+    g = C.tlc("GenCharSource", "gen_CharSource.cfg", os.path.join(rd, "gencs"), workers=4, heap="4g",
+              simulate=(400 if tier == "quick" else 6000), depth=14, seed=seed)
+    chk.add_tlc(g)
+    scripts = C.parse_payload(g.lines, "CASE ")
+    if len(scripts) < 300:
+        raise C.InfraError("only %d character source scripts" % len(scripts))
+    cases = []
+    for i, sc in enumerate(scripts):
+        lines = [bytes(sc["file"]).hex()]
+        for o in sc["ops"]:
+            if o["k"] == "G":
+                lines.append("G")
+            elif o["k"] == "U":
+                lines.append("U %d" % o["c"])
+            else:
+                lines.append("P " + bytes(o["t"]).hex())
+        cases.append(("cs%d" % i, "", "\n".join(lines)))
+    obs = {o["case"]: o for o in C.conform_parallel(vdir, "chars", cases, rd, "chars", 5, nproc=4)}
+    events = []
+    for i, sc in enumerate(scripts):
+        o = obs.get("cs%d" % i)
+        if o is None or o.get("died"):
+            chk.report("chars:died", "the character source died on %s" % json.dumps(sc)[:300], dict(script=sc, observed=o))
+            continue
+        events.append(dict(id="cs%d" % i, file=sc["file"], ops=sc["ops"], got=o["got"]))
+    canaries = set()
+    for e in rnd.sample([e for e in events if len(e["got"]) >= 2], 6):
+        c = json.loads(json.dumps(e))
+        c["id"] = "canary." + e["id"]
+        c["got"][-1] = 1 if c["got"][-1] != 1 else 2
+        canaries.add(c["id"])
+        events.append(c)
+    verdicts, runs = C.tlc_accept("TraceCharSource", "trace_CharSource.cfg", events, rd, "chars", heap="3g")
+    for x in runs:
+        chk.add_tlc(x)
+    bad = {v["id"]: v for v in verdicts}
+    if [c for c in canaries if c not in bad]:
+        raise C.InfraError("character source canaries accepted")
+    byid = {e["id"]: e for e in events}
+    for vid, v in sorted(bad.items()):
+        if vid in canaries:
+            continue
+        e = byid[vid]
+        shape = "".join(o["k"] for o in e["ops"])
+        chk.report("chars:%s" % shape, "tokens_get_char delivered %s, the stream is %s for file %s ops %s" % (
+            e["got"], v["expect"], e["file"], json.dumps(e["ops"])), dict(script=dict(file=e["file"], ops=e["ops"]), got=e["got"], expect=v["expect"]))
+    return len(events) - len(canaries)
+
+
 def run(tier, seed):
     chk = C.Check(PROP, tier, seed, "model_checking")
     rnd = random.Random(seed)
@@ -188,7 +246,9 @@ def run(tier, seed):
         last = progs[i][-1]
         key = "macro:%s:%s" % (bad[cid]["why"], json.dumps(last, sort_keys=True)[:160])
         chk.report(key, "%s on .%s\n%s" % (bad[cid]["why"], cpu, src), dict(source=src, why=bad[cid]["why"], observed=observe(byid[cid], names)))
+    ncs = charsource_part(chk, vdir, tier, seed, rnd)
     chk.cov.update(dict(
+        character_source_scripts=ncs,
         evaluations=len(cases) + 2 * ninc,
         distinct_nontrivial=len([p for p in progs if any(s["k"] in ("invoke", "repeat") for s in p[11:])]),
         rule="GenMacro: prelude (4 defines/equ, 7 macros incl. nested, repeating, 9-parameter) + every body of 1-2 statements "
